@@ -1055,6 +1055,10 @@ def check_json_family(run, prop, replay=None):
                 mk = re.match(r"Err\((.*)\)$", mv)
                 if mk and not err_mentions(iv, mk.group(1)):
                     corr.append((i, c, im, mo, ctx, "error does not mention the key the model names"))
+            elif c.startswith("UB "):
+                # (through the server's Parse(): the parsed body is observed as the JSON it re-encodes to)
+                if canon_json_hex(ikv.get("reenc", "")) != canon_json_hex(mkv.get("reenc", "")):
+                    corr.append((i, c, im, mo, ctx, "the request body the server parsed re-encodes differently from the model"))
             else:
                 if canon_dump(iv) != canon_dump(mv) or canon_json_hex(ikv.get("reenc", "")) != canon_json_hex(mkv.get("reenc", "")):
                     corr.append((i, c, im, mo, ctx, "decoded value / re-encoding differs from the model"))
